@@ -1,10 +1,11 @@
 /-
   Whole-solver level: `solve()` reads the two norm caches `data.normq`, `data.normb` of the problem
   data ONLY through `get_normq` / `get_normb` (`Info.getNormq data.normq data.q dinv c`,
-  `Info.getNormb data.normb data.b einv`) at the top of every pass (`topNumerics`), and carries
-  them along unchanged.  Consequence (`solve_setNorms`): replacing the caches by other caches for
-  which these two calls return the same thing does not change `solve()`: same errors, same
-  trajectory, same final state (up to the caches themselves), same solution.
+  `Info.getNormb data.normb data.b einv`) at the top of every pass (`topNumerics`); the loop carries
+  them along unchanged and the object `solve()` returns holds the answers of the two calls
+  (`fillNorms`, round 8).  Consequence (`solve_setNorms`): replacing the caches by other caches for
+  which these two calls return the same thing does not change `solve()` AT ALL: same errors, same
+  trajectory, same final state (caches included), same solution.
 
   Same architecture as `PresolveSolveTransparent.lean` (which does this for the `presolver`
   record).  All structural ([S]): no arithmetic law is used, the statements hold for `Float`.
@@ -318,42 +319,73 @@ theorem finish_setNorms (st : Settings α) (L : LoopSt α) (sol : Unscale.Soluti
   rw [finishInfo_setNorms]
   exact map_bind_congr rfl (fun r => rfl)
 
+/-- `finish` (`post_process` of `info` and `solution`) never writes the problem data -/
+theorem finish_data' {st : Settings α} {L : LoopSt α} {sol : Unscale.Solution α}
+    {r : SolverSt α × Unscale.Solution α} (h : finish st L sol = .ok r) : r.1.data = L.S.data := by
+  unfold finish at h
+  obtain ⟨u, _, h⟩ := bind_ok_inv' h
+  cases h
+  show (finishInfo st L).data = L.S.data
+  unfold finishInfo
+  by_cases ha : (L.alpha == 0) = true
+  · simp only [if_pos ha]
+  · simp only [if_neg ha]
+
+/-- `get_normq(); get_normb()` on data whose caches were replaced by agreeing ones: the same answers,
+hence the same filled data -/
+theorem fillNorms_setNorms (d : ProblemData α) (nq nb : Option α) (h : NormsAgree d nq nb) :
+    fillNorms (d.setNorms nq nb) = fillNorms d := by
+  unfold fillNorms
+  show (Info.getNormq nq d.q d.equilibration.dinv d.equilibration.c >>= fun a =>
+      Info.getNormb nb d.b d.equilibration.einv >>= fun b =>
+        pure { d.setNorms nq nb with normq := some a, normb := some b }) = _
+  rw [h.1, h.2]
+  rfl
+
 /-- **[S] MAIN THEOREM.**  `solve()` reads the norm caches `data.normq`, `data.normb` only through
-`get_normq` / `get_normb`: on a solver object whose caches are replaced by caches `nq`, `nb` that
-answer these two calls like the original ones (`NormsAgree`, a statement about the data at entry:
-`solve()` never writes the data), `solve()` returns the same error, or the same trajectory (every
-pass record), the same solution and the same final solver state with the caches replaced. -/
+`get_normq` / `get_normb`, and what it leaves in them are the answers of these two calls: on a solver
+object whose caches are replaced by caches `nq`, `nb` that answer the two calls like the original
+ones (`NormsAgree`, a statement about the data at entry: `solve()` writes nothing else of the data),
+`solve()` returns THE SAME — the same error, or the same trajectory (every pass record), the same
+solution and the same final solver state, caches included (they are `Some` of the common answers).
+(Before `solve()` stored the caches in the object it returns, round 8, the final states agreed only
+up to the caches.) -/
 theorem solve_setNorms (S : Solver α) (st : Settings α) (nq nb : Option α)
     (h : NormsAgree S.st.data nq nb) :
-    (S.setNorms nq nb).solve st = (S.solve st).map (fun r => { r with S := r.S.setNorms nq nb }) := by
+    (S.setNorms nq nb).solve st = S.solve st := by
   unfold Solver.solve
-  refine map_bind_congr2 (runSolve_setNorms S.st nq nb st h) (fun L => ?_)
-  refine map_bind_congr2 (finish_setNorms st L S.solution nq nb) (fun r => ?_)
-  rfl
+  show ((S.st.setNorms nq nb).runSolve st >>= fun L => _) = _
+  rw [runSolve_setNorms S.st nq nb st h]
+  cases hL : S.st.runSolve st with
+  | error e => rfl
+  | ok L =>
+    show (finish st (L.setNorms nq nb) S.solution >>= fun r => _) = (finish st L S.solution >>= fun r => _)
+    rw [finish_setNorms]
+    cases hf : finish st L S.solution with
+    | error e => rfl
+    | ok r =>
+      have hd : r.1.data = S.st.data := (finish_data' hf).trans (runSolve_data' hL)
+      show (fillNorms (r.1.data.setNorms nq nb) >>= fun data => _) = (fillNorms r.1.data >>= fun data => _)
+      rw [fillNorms_setNorms _ nq nb (h.of_data_eq hd)]
+      rfl
 
 /-- `solve_setNorms`, spelled out on a successful solve -/
 theorem solve_setNorms_ok {S : Solver α} {st : Settings α} {nq nb : Option α} {r : SolveResult α}
     (h : NormsAgree S.st.data nq nb) (hr : S.solve st = .ok r) :
-    (S.setNorms nq nb).solve st = .ok { S := r.S.setNorms nq nb, traj := r.traj } := by
+    (S.setNorms nq nb).solve st = .ok r := by
   rw [solve_setNorms S st nq nb h, hr]
-  rfl
 
 /-- `solve_setNorms`, errors: the same error is returned -/
 theorem solve_setNorms_error {S : Solver α} {st : Settings α} {nq nb : Option α} {e : ModelErr}
     (h : NormsAgree S.st.data nq nb) (hr : S.solve st = .error e) :
     (S.setNorms nq nb).solve st = .error e := by
   rw [solve_setNorms S st nq nb h, hr]
-  rfl
 
-/-- two pairs of caches that both agree with those of `S` give the same `solve()` up to the caches -/
+/-- two pairs of caches that both agree with those of `S` give the same `solve()` -/
 theorem solve_setNorms_setNorms (S : Solver α) (st : Settings α) (nq nb nq' nb' : Option α)
     (h : NormsAgree S.st.data nq nb) (h' : NormsAgree S.st.data nq' nb') :
-    ((S.setNorms nq nb).solve st).map (fun r => { r with S := r.S.setNorms nq' nb' })
-      = (S.setNorms nq' nb').solve st := by
+    (S.setNorms nq nb).solve st = (S.setNorms nq' nb').solve st := by
   rw [solve_setNorms S st nq nb h, solve_setNorms S st nq' nb' h']
-  cases S.solve st with
-  | error e => rfl
-  | ok r => rfl
 
 /-! ### 3. which caches agree -/
 
@@ -379,16 +411,14 @@ theorem normsAgree_none_of_valid (d : ProblemData α) (vq vb : α)
   · rw [eb1]; rfl
 
 /-- consequence for `solve()`: with valid-or-absent caches, the solve with the caches dropped and
-the solve with the caches filled in are the solve of `S`, up to the caches in the final state -/
+the solve with the caches filled in ARE the solve of `S` (final caches included) -/
 theorem solve_norms_none_of_valid (S : Solver α) (st : Settings α) (vq vb : α)
     (hq : Info.getNormq none S.st.data.q S.st.data.equilibration.dinv S.st.data.equilibration.c = .ok vq)
     (hb : Info.getNormb none S.st.data.b S.st.data.equilibration.einv = .ok vb)
     (hcq : S.st.data.normq = none ∨ S.st.data.normq = some vq)
     (hcb : S.st.data.normb = none ∨ S.st.data.normb = some vb) :
-    (S.setNorms none none).solve st
-        = (S.solve st).map (fun r => { r with S := r.S.setNorms none none })
-    ∧ (S.setNorms (some vq) (some vb)).solve st
-        = (S.solve st).map (fun r => { r with S := r.S.setNorms (some vq) (some vb) }) :=
+    (S.setNorms none none).solve st = S.solve st
+    ∧ (S.setNorms (some vq) (some vb)).solve st = S.solve st :=
   ⟨solve_setNorms S st _ _ (normsAgree_none_of_valid _ vq vb hq hb hcq hcb).1,
    solve_setNorms S st _ _ (normsAgree_none_of_valid _ vq vb hq hb hcq hcb).2⟩
 
